@@ -174,7 +174,8 @@ def summarize(tier: str, seed: int, merged: dict) -> dict:
         "rule": (
             f"every x of the dyadic grid (|D|={len(dy)}) and of the seed-phased lattice plus 0.25/0.5/0.75 with 3 "
             f"floating-point neighbours each side and the smallest/largest representable interior points "
-            f"(|L|={len(other)}), 6 hedges, scalar/1-D/2-D calls; non-trivial = x strictly inside (0,1)"
+            f"(|L|={len(other)}; incl. degrees 2^-12 .. 2^-100 and 1e-5 .. 1e-20, compared RELATIVELY below 2^-10), 6 hedges, scalar/1-D/2-D calls, "
+            "list / matrix / masked / float32 / float16 arguments; non-trivial = x strictly inside (0,1)"
         ),
         "exhaustive": True,
         "vacuity_errors": vac,
